@@ -856,10 +856,76 @@ def analyse_sources():
     return [uniq[k] for k in sorted(uniq)]
 
 
+# ================================================================================================ draws and artifact loops
+import builtins as _builtins  # noqa: E402
+
+_BUILTIN_NAMES = set(dir(_builtins))
+
+
+def analyse_loops():
+    """For every function: every local variable that receives a (possibly) drawn value - a primitive draw or the result of a
+    callable that draws, e.g. `kib = BeeKIB()` - and every loop in whose body that variable is READ: is the defining
+    statement inside that loop (a new value per iteration) or hoisted out of it (one value serves every iteration)?"""
+    w, _sites, _stats = analyse()
+    rows = []
+    for m in sorted(w.mods.values(), key=lambda x: x.rel):
+        for qual, fn in sorted(m.funcs.items()):
+            if not any(id(n) in w.draw_nodes for n in ast.walk(fn) if isinstance(n, ast.Call)):
+                continue
+            # loops over artifacts: `for x in <collection>` (retry loops - `while ...`, `for _ in range(n)` - repeat ONE artifact)
+            loops = [n for n in ast.walk(fn) if isinstance(n, (ast.For, ast.AsyncFor))
+                     and not (isinstance(n.target, ast.Name) and n.target.id.startswith("_"))]
+            if not loops:
+                continue
+            # defining statements: `v = <expr with a draw call>` (first level taint only: the object / bytes that were drawn)
+            defs = []
+            for n in ast.walk(fn):
+                if isinstance(n, ast.stmt):
+                    targets, value = _assign_targets(n)
+                    if value is None:
+                        continue
+                    calls = [c for c in ast.walk(value) if isinstance(c, ast.Call) and id(c) in w.draw_nodes]
+                    if not calls:
+                        continue
+                    for t in targets:
+                        for tt in (t.elts if isinstance(t, (ast.Tuple, ast.List)) else [t]):
+                            if isinstance(tt, ast.Name):
+                                defs.append((tt.id, n, calls[0]))
+
+            def inside(node, loop):
+                return any(x is node for b in (loop.body, loop.orelse) for st in b for x in ast.walk(st))
+
+            for var, dst, call in defs:
+                for lp in loops:
+                    body_nodes = [x for b in (lp.body, lp.orelse) for st in b for x in ast.walk(st)]
+                    # the value itself is handed to something created / called per iteration: `Header(prdb, key, kib)`.
+                    # (`obj.add(x)`, `obj[i] = x`, `obj.attr` in the loop body use ONE artifact `obj` whose parts the loop adds.)
+                    reads = [c for c in body_nodes if isinstance(c, ast.Call)
+                             and not (isinstance(c.func, ast.Name) and c.func.id in _BUILTIN_NAMES)
+                             and any(isinstance(a, ast.Name) and a.id == var for a in list(c.args) + [k.value for k in c.keywords])]
+                    if not reads:
+                        continue
+                    d_in = inside(dst, lp)
+                    if not d_in:
+                        # re-defined inside the loop before use? then the outer definition does not serve the iterations
+                        if any(v2 == var and inside(d2, lp) for v2, d2, _c in defs):
+                            continue
+                        # a definition AFTER the loop cannot serve it
+                        if dst.lineno > lp.lineno:
+                            continue
+                    rows.append(dict(kind=kind_of(m.rel), scope=qual, var=var, drawLoc=f"{m.rel}:{call.lineno}", loopLoc=f"{m.rel}:{lp.lineno}",
+                                     inside=bool(d_in)))
+    uniq = {}
+    for r in rows:
+        uniq.setdefault((r["drawLoc"], r["var"], r["loopLoc"]), r)
+    return [uniq[k] for k in sorted(uniq)]
+
+
 def gen_SecretState() -> None:
     rows = analyse_state()
     srcs = analyse_sources()
-    out = ["import SpsdkVerif.Model.FreshObj", "import SpsdkVerif.Model.FreshFile", "", "namespace SpsdkVerif.Generated", "open SpsdkVerif.Fresh", "",
+    lps = analyse_loops()
+    out = ["import SpsdkVerif.Model.FreshObj", "import SpsdkVerif.Model.FreshFile", "import SpsdkVerif.Model.FreshLoop", "", "namespace SpsdkVerif.Generated", "open SpsdkVerif.Fresh", "",
            "/-- every method that writes an attribute holding a self-chosen secret: role and whether every normal path (re)sets it -/",
            "def secretSlots : List SlotPath := ["]
     out.append(",\n".join("  { kind := .%s, cls := %s, slot := %s, method := %s, role := .%s, resets := %s, direct := %s, loc := %s }" % (
@@ -875,8 +941,15 @@ def gen_SecretState() -> None:
         "true" if r["altFile"] else "false", lean_str(r["test"])) for r in srcs))
     out.append("]")
     out.append("")
+    out.append("/-- every (variable holding a drawn value, loop that reads it): is the draw / drawing constructor call inside the loop -/")
+    out.append("def loopUses : List LoopUse := [")
+    out.append(",\n".join("  { kind := .%s, scope := %s, var := %s, drawLoc := %s, loopLoc := %s, inside := %s }" % (
+        r["kind"], lean_str(r["scope"]), lean_str(r["var"]), lean_str(r["drawLoc"]), lean_str(r["loopLoc"]), "true" if r["inside"] else "false")
+        for r in lps))
+    out.append("]")
+    out.append("")
     out.append("end SpsdkVerif.Generated")
-    emit("SecretState", "\n".join(out) + "\n", {"slots": rows, "sources": srcs, "by_role": {k: sum(1 for r in rows if r["role"] == k) for k in ("init", "getter", "lazy", "respec", "other")}})
+    emit("SecretState", "\n".join(out) + "\n", {"slots": rows, "sources": srcs, "loops": lps, "by_role": {k: sum(1 for r in rows if r["role"] == k) for k in ("init", "getter", "lazy", "respec", "other")}})
 
 
 GENERATORS = {"SecretSites": gen_SecretSites, "SecretState": gen_SecretState}
